@@ -116,6 +116,7 @@ type path struct {
 	ctx                            context.Context
 	ctxCancel                      func()
 	pendingRequests                atomic.Int64
+	confToReload                   atomic.Pointer[conf.Path]
 	confMutex                      sync.RWMutex
 	source                         defs.Source
 	stream                         *stream.Stream
@@ -137,7 +138,7 @@ type path struct {
 	onDemandPublisherCloseTimer    *time.Timer
 
 	// in
-	chReloadConf              chan *conf.Path
+	chReloadConf              chan struct{}
 	chStaticSourceSetReady    chan defs.PathSourceStaticSetReadyReq
 	chStaticSourceSetNotReady chan defs.PathSourceStaticSetNotReadyReq
 	chDescribe                chan defs.PathDescribeReq
@@ -162,7 +163,7 @@ func (pa *path) initialize() {
 	pa.onDemandStaticSourceCloseTimer = emptyTimer()
 	pa.onDemandPublisherReadyTimer = emptyTimer()
 	pa.onDemandPublisherCloseTimer = emptyTimer()
-	pa.chReloadConf = make(chan *conf.Path)
+	pa.chReloadConf = make(chan struct{}, 1)
 	pa.chStaticSourceSetReady = make(chan defs.PathSourceStaticSetReadyReq)
 	pa.chStaticSourceSetNotReady = make(chan defs.PathSourceStaticSetNotReadyReq)
 	pa.chDescribe = make(chan defs.PathDescribeReq)
@@ -327,8 +328,8 @@ func (pa *path) runInner() error {
 		case <-pa.onDemandPublisherCloseTimer.C:
 			pa.doOnDemandPublisherCloseTimer()
 
-		case newConf := <-pa.chReloadConf:
-			pa.doReloadConf(newConf)
+		case <-pa.chReloadConf:
+			pa.doReloadConf(pa.confToReload.Load())
 
 		case req := <-pa.chStaticSourceSetReady:
 			pa.doSourceStaticSetReady(req)
@@ -1096,10 +1097,14 @@ func (pa *path) addReaderPost(req defs.PathAddReaderReq) {
 }
 
 // reloadConf is called by pathManager.
+// it never blocks, and when it is called more than once
+// before the path has processed the request, the last configuration wins.
 func (pa *path) reloadConf(newConf *conf.Path) {
+	pa.confToReload.Store(newConf)
+
 	select {
-	case pa.chReloadConf <- newConf:
-	case <-pa.ctx.Done():
+	case pa.chReloadConf <- struct{}{}:
+	default:
 	}
 }
 
